@@ -36,8 +36,16 @@ URI = {'a': 'a', 'E': '', 'K': '32=k', 'T': '65535=x', 'L': 'l' * 253,
 
 
 def comp_wire(tok):
+    if isinstance(tok, str) and tok.startswith('G'):     # 'G<n>': generic component with an n-byte value
+        return ts.tlv(8, b'g' * int(tok[1:]))
     t, v = COMP[tok]
     return ts.tlv(t, v)
+
+
+def uri_of(tok):
+    if tok.startswith('G'):
+        return 'g' * int(tok[1:])
+    return URI[tok]
 
 
 def name_repr(tokens, rep):
@@ -47,12 +55,12 @@ def name_repr(tokens, rep):
     if rep == 'bytes':
         return ts.tlv(7, b''.join(comps))
     if rep == 'uri':
-        s = '/' + '/'.join(URI[t] for t in tokens)
+        s = '/' + '/'.join(uri_of(t) for t in tokens)
         if tokens and tokens[-1] == 'E':
             s += '/'
         return s
     if rep == 'mixed':
-        return [URI[t] if i % 2 == 0 else bytearray(comps[i]) for i, t in enumerate(tokens)]
+        return [uri_of(t) if i % 2 == 0 else bytearray(comps[i]) for i, t in enumerate(tokens)]
     if rep == 'mview':
         return memoryview(ts.tlv(7, b''.join(comps)))
     raise ValueError(rep)
@@ -166,6 +174,17 @@ def space_lengths(tier):
                     yield {'k': kind, 'name': toks, 'rep': 'list', 'p': 'default', 'plen': plen, 'signer': signer}
 
 
+def space_name_lengths(tier):
+    """the Name's own length field crossing 253 and 65536, with and without the appended digest component"""
+    lens = list(range(170, 262)) + list(range(65440, 65540))
+    for kind in ('I', 'D'):
+        for n in lens:
+            for toks in ([f'G{n}'], ['a', f'G{n}'], [f'G{n}', 'K', 'a']):
+                for rep in (('list', 'uri') if n < 1000 else ('list', 'bytes')):
+                    for plen, signer in ((None, 'none'), (1, 'none'), (None, 'digest'), (2, 'hmac')):
+                        yield {'k': kind, 'name': toks, 'rep': rep, 'p': 'default', 'plen': plen, 'signer': signer}
+
+
 def space_full_sweep(tier):
     """every payload length 0..70000 for six (kind, name, signer) combinations (thorough only)"""
     combos = [('I', ['a'], 'digest'), ('D', ['a'], 'digest'), ('I', ['a'], ['syn', 72, 70]), ('D', ['a'], ['syn', 72, 71]),
@@ -196,9 +215,9 @@ def space_asym(tier):
             yield {'k': kind, 'name': ['a', 'P'] if kind == 'I' else ['a'], 'rep': 'list', 'p': p, 'plen': 3, 'signer': 'ecdsa', 'it': p}
 
 
-SPACES = {'names': space_names, 'params': space_params, 'lengths': space_lengths, 'shrink': space_shrink,
+SPACES = {'namelen': space_name_lengths, 'names': space_names, 'params': space_params, 'lengths': space_lengths, 'shrink': space_shrink,
           'asym': space_asym, 'sweep': space_full_sweep}
-CHUNK = 4000
+CHUNK = 1500
 
 
 # -- oracle -----------------------------------------------------------------------------------------
@@ -372,7 +391,7 @@ def hexl(lst):
 def plan(tier, seed):
     units = []
     sizes = {}
-    names = ['names', 'params', 'lengths', 'shrink', 'asym'] + (['sweep'] if tier == 'thorough' else [])
+    names = ['names', 'namelen', 'params', 'lengths', 'shrink', 'asym'] + (['sweep'] if tier == 'thorough' else [])
     for sp in names:
         n = sum(1 for _ in SPACES[sp](tier))
         sizes[sp] = n
